@@ -76,6 +76,10 @@ mutual
     | call (buf : Bytes) (callee : Bytes) (base : DataBase) (params : List (Bytes × JsExpr))
     /-- `switch (e) { case n: … break; … default: … }` with integer labels (a `{plural}` without a message bundle) -/
     | pluralS (e : JsExpr) (cases : JsPlural) (dflt : JsStmts)
+    /-- `buf += e + '-';` (the expression part of a `{css}` command) -/
+    | appendCss (buf : Bytes) (e : JsExpr)
+    /-- `debugger;` (§12.15: without a debugger attached, nothing) -/
+    | debuggerS
   inductive JsStmts where
     | nil
     | cons (s : JsStmt) (rest : JsStmts)
@@ -232,6 +236,13 @@ mutual
       withVal (eval env init) fun v =>
         execLoopStep (execStmts body) i lim step idx fuel (setLocal (setLocal env i v) idx (.num 0))
     | .switchS e cases, env => withVal (eval env e) fun v => execCases cases v env
+    | .appendCss buf e, env =>
+      -- `e + '-'` with a string operand: ToString of `e` (a primitive of the subset), then the hyphen
+      withVal (eval env e) fun v =>
+        match toStr? v with
+        | some s => appendTo env buf (.str (s ++ [45]))
+        | none => .unspec
+    | .debuggerS, env => .ok env
     | .pluralS e cases dflt, env =>
       withVal (eval env e) fun v =>
         match v with
